@@ -48,14 +48,14 @@ class Check(RecordingCheck):
             n += self.witness_mixed(work)
             # 2. search: plain edit histories (no fault), then faults at every commit inside
             #    record_call_node of the workloads followed by an edit
-            for name in ("chain", "two_args"):
+            for name in ("chain", "two_args", "caught", "caught_deep"):
                 o = self.e2e(name, [], work, f"b{n}")
                 n += 1
                 if (o["edited"][0] == "ok" and o["stale_edited"]) or (o["same"][0] == "ok" and o["stale_same"]):
                     self.findings.append(Finding(
                         f"stale-shallow-hit:no-fault:{name}", f"workload {name}, no fault: after editing leaf the run returns "
                         f"{o['edited'][1]!r}, a fresh backend {o['expected_edited'][1]!r}", {"kind": "e2e", "workload": name, "plan": []}))
-            names = ["chain"] if self.tier == "quick" else list(rl.WORKLOADS)
+            names = ["chain"] if self.tier == "quick" else list(rl.MODELLED_WORKLOADS)
             for name in names:
                 db = rl.fresh_db(str(work), "probe.db")
                 _, _, log, s = rl.sched_run(name, rl.LEAF_V1[name], db)
